@@ -610,40 +610,77 @@ func genMetricTok(r *vk.RNG, depth int) gq {
 			}
 			return o
 		}
+		// genMod writes the modifier of one operator and returns its canonical text
+		genMod := func() string {
+			boolMod := false
+			if r.Chance(1, 4) {
+				g.add("bool")
+				boolMod = true
+			}
+			mop, grpSide := "", ""
+			var opLabels, include []string
+			if r.Chance(1, 4) {
+				mop = vk.Pick(r, []string{"on", "ignoring"})
+				g.add(mop, "(")
+				ls, lg := genLabelList(r, 0, 2, false)
+				opLabels = ls
+				g.app(lg)
+				g.add(")")
+				if r.Bool() {
+					grpSide = vk.Pick(r, []string{"left", "right"})
+					g.add("group_" + grpSide)
+					// an include list is only unambiguous when non-empty (an empty "()" followed by "(" operand is fine too, but keep to the clear forms)
+					if r.Bool() {
+						ls, lg := genLabelList(r, 1, 2, false)
+						include = ls
+						g.add("(")
+						g.app(lg)
+						g.add(")")
+					}
+				}
+			}
+			return fmt.Sprintf("mod(bool=%v,%q,[%s],%q,[%s])", boolMod, mop, strings.Join(opLabels, ","), grpSide, strings.Join(include, ","))
+		}
+		if r.Chance(1, 4) {
+			// a chain of 2-3 operators without parentheses, each with its own modifier (round 18). The levels
+			// strictly loosen from left to right, so the grouping is the same under every associativity
+			// ((a ^ b) * c) + d; an operator's modifier is the one written after it and nothing else.
+			levels := [][]string{{"^"}, {"*", "/", "%"}, {"+", "-"}, {"==", "!=", ">", ">=", "<", "<="}, {"and", "unless"}, {"or"}}
+			n := r.Range(2, 3)
+			var idx []int
+			for len(idx) < n {
+				k := r.Intn(len(levels))
+				dup := false
+				for _, x := range idx {
+					dup = dup || x == k
+				}
+				if !dup {
+					idx = append(idx, k)
+				}
+			}
+			sort.Ints(idx)
+			first := operand(false)
+			g.app(first)
+			w := first.W
+			for _, li := range idx {
+				op := vk.Pick(r, levels[li])
+				g.add(op)
+				m := genMod()
+				rhs := operand(false)
+				g.app(rhs)
+				w = fmt.Sprintf("bin(%s %s %s %s)", c05BinOps[op], m, w, rhs.W)
+			}
+			g.W = w
+			break
+		}
 		logic := opT == "and" || opT == "or" || opT == "unless"
 		left := operand(!logic)
 		right := operand(!logic && !strings.HasPrefix(left.W, "lit("))
 		g.app(left)
 		g.add(opT)
-		boolMod := false
-		if r.Chance(1, 4) {
-			g.add("bool")
-			boolMod = true
-		}
-		mop, grpSide := "", ""
-		var opLabels, include []string
-		if r.Chance(1, 4) {
-			mop = vk.Pick(r, []string{"on", "ignoring"})
-			g.add(mop, "(")
-			ls, lg := genLabelList(r, 0, 2, false)
-			opLabels = ls
-			g.app(lg)
-			g.add(")")
-			if r.Bool() {
-				grpSide = vk.Pick(r, []string{"left", "right"})
-				g.add("group_" + grpSide)
-				// an include list is only unambiguous when non-empty (an empty "()" followed by "(" operand is fine too, but keep to the clear forms)
-				if r.Bool() {
-					ls, lg := genLabelList(r, 1, 2, false)
-					include = ls
-					g.add("(")
-					g.app(lg)
-					g.add(")")
-				}
-			}
-		}
+		m := genMod()
 		g.app(right)
-		g.W = fmt.Sprintf("bin(%s mod(bool=%v,%q,[%s],%q,[%s]) %s %s)", c05BinOps[opT], boolMod, mop, strings.Join(opLabels, ","), grpSide, strings.Join(include, ","), left.W, right.W)
+		g.W = fmt.Sprintf("bin(%s %s %s %s)", c05BinOps[opT], m, left.W, right.W)
 	case 5:
 		inner := genMetricTok(r, depth-1)
 		dst, repl, src, re := vk.Pick(r, c05Labels), vk.Pick(r, []string{"$1", "x-$2", ""}), vk.Pick(r, c05Labels), vk.Pick(r, c05Regexes)
